@@ -11,7 +11,8 @@ Inductive mexpr :=
 | MLit (v : pyval)        (* a literal, printed with repr *)
 | MParam (i : nat)        (* the name of the i-th parameter *)
 | MLocal (i : nat)        (* x<i>: the target of the i-th statement *)
-| MVar (name : bytes).    (* a module-level variable *)
+| MVar (name : bytes)     (* a module-level variable *)
+| MComputed (v : pyval).  (* an expression without names that is not one ast.Constant (+1, ~1, (1+1), not 0) and evaluates to v *)
 
 (* how a callee is spelled *)
 Inductive spelling :=
